@@ -198,12 +198,13 @@ deriving Repr, Inhabited
 def sExports (ms : List SMod) (k : Nat) : List (Name × Val) := (ms.getD k ⟨[], [], true⟩).exports
 
 /-- Environment and exports of module `k`, given those of the modules before it. -/
+def sStep (ex : Nat → List (Name × Val)) (acc : Env × Bool) (s : Spec) : Env × Bool :=
+  match s.importsS ex with
+  | some l => (acc.1.bindAll l, acc.2)
+  | none => (acc.1, false)
+
 def sModule (ms : List SMod) (k : Nat) (m : Module) : SMod :=
-  let step := fun (acc : Env × Bool) (s : Spec) =>
-    match s.importsS (sExports ms) with
-    | some l => (acc.1.bindAll l, acc.2)
-    | none => (acc.1, false)
-  let (imp, ok) := m.reqs.foldl step ([], true)
+  let (imp, ok) := m.reqs.foldl (sStep (sExports ms)) ([], true)
   let env := imp.bindAll (m.defs.map fun d => (d, ⟨.mod k, d, false⟩))
   let exports := m.provs.filterMap fun p =>
     (env.lookup p.name).map fun v => (p.name, { v with contracted := v.contracted || p.contract })
@@ -492,16 +493,18 @@ structure SState where
   nreq : Nat := 0
 deriving Repr, Inhabited
 
+def sBindStep (ex : Nat → List (Name × Val)) (acc : Option Env) (s : Spec) : Option Env :=
+  match acc, s.importsS ex with
+  | some e, some l => some (e.bindAll l)
+  | _, _ => none
+
 def evalRequestS (g : Graph) (ms : List SMod) (st : SState) (r : Request) : SState × Status :=
   let nreq := st.nreq + 1
   if r.mode = .failCompile then ({ st with nreq := nreq }, .errSyntax)
   else if r.mode = .failBuild then ({ st with nreq := nreq }, .errFreeId)
   else
     let needs := (r.needs g).eraseDups
-    let imported := r.specs.foldl (fun (acc : Option Env) s =>
-      match acc, s.importsS (sExports ms) with
-      | some e, some l => some (e.bindAll l)
-      | _, _ => none) (some st.top)
+    let imported := r.specs.foldl (sBindStep (sExports ms)) (some st.top)
     match imported, needs.all (fun k => (ms.getD k ⟨[], [], true⟩).ok) with
     | some env, true =>
       let env := env.bindAll (r.defs.map fun d => (d, ⟨.top st.nreq, d, false⟩))
@@ -511,5 +514,61 @@ def evalRequestS (g : Graph) (ms : List SMod) (st : SState) (r : Request) : SSta
 
 def sView (g : Graph) (ms : List SMod) (k : Nat) : List (Name × Option Val) :=
   (g.mod k).views.map fun v => (v, (ms.getD k ⟨[], [], true⟩).env.lookup v)
+
+/-! ## 7. Whole runs, and the guard of the refinement theorem (`Props.lean` §5)
+
+`graphGuard` / `reqGuard` are the decidable conditions under which the flat machine M (the code as it is)
+and the per-module environments S agree on whole requests: every require spec is in the fragment on which
+flattening and composing the modifiers bind the same names to the same definitions *in any order of
+binding* (`canonical2`; outside it: open finding K14c), every module refers (provides, probe) only to
+names that are bound in it (a name that is not is looked up in the global namespace of whatever program
+is running — not a module-system matter), and the requiring program binds only identifiers the reader
+produces from plain text (outside: open finding K14d). -/
+
+def runM (fix : Fix) (g : Graph) : MState → List Request → MState × List Status
+  | st, [] => (st, [])
+  | st, r :: rest =>
+    let (st', s) := evalRequestM fix g st r
+    let (st'', ss) := runM fix g st' rest
+    (st'', s :: ss)
+
+def runS (g : Graph) (ms : List SMod) : SState → List Request → SState × List Status
+  | st, [] => (st, [])
+  | st, r :: rest =>
+    let (st', s) := evalRequestS g ms st r
+    let (st'', ss) := runS g ms st' rest
+    (st'', s :: ss)
+
+/-- The environment of module `k` under S. -/
+def senv (ms : List SMod) (k : Nat) : Env := (ms.getD k ⟨[], [], true⟩).env
+
+/-- The names module `m` exports under S. -/
+def expNames (ms : List SMod) (m : Nat) : List Name := (sExports ms m).map (·.1)
+
+/-- `canonical`, and the names an `only-in` binds are pairwise different (two identifiers renamed to one
+name: the code binds the one that comes later in the `provide` list, S the one that comes later in the
+`only-in`). -/
+def Spec.canonical2 (provs : Nat → List Name) : Spec → Bool
+  | .path _ => true
+  | .prefixIn _ s => s.canonical2 provs
+  | .onlyIn (.path m) ids =>
+      (Spec.onlyIn (.path m) ids).canonical provs && (ids.map fun ia => ia.2.getD ia.1).Nodup
+  | .onlyIn _ _ => false
+
+/-- Everything the requires `specs` bind under S, in binding order (ill-formed specs bind nothing). -/
+def sImports (ex : Nat → List (Name × Val)) (specs : List Spec) : List (Name × Val) :=
+  specs.flatMap fun s => (s.importsS ex).getD []
+
+def modGuard (g : Graph) (ms : List SMod) (k : Nat) : Bool :=
+  let m := g.mod k
+  m.reqs.all (fun s => s.canonical2 (expNames ms)) &&
+    (m.provs.map (·.name) ++ m.views).all fun n => ((senv ms k).lookup n).isSome
+
+def graphGuard (g : Graph) : Bool :=
+  g.wf && (List.range g.length).all (modGuard g (sBuild g))
+
+def reqGuard (g : Graph) (ms : List SMod) (r : Request) : Bool :=
+  r.specs.all (fun s => decide (s.target < g.length) && s.canonical2 (expNames ms)) &&
+    ((sImports (sExports ms) r.specs).map (·.1) ++ r.defs).all fun n => decide (SourceIdent n)
 
 end SteelVerif.C14
